@@ -1,7 +1,7 @@
 /-
 Searching several collections on list sketches (C08): `Index.find` is a per-signature
 filter, `Index.search` sorts it, `search_databases_with_flat_query` concatenates,
-de-duplicates by md5 and sorts again.
+de-duplicates on (md5, scaled, num) and sorts again.
 -/
 import SmVerif.Lemmas.GatherInit
 import SmVerif.Model.SearchDb
@@ -136,19 +136,24 @@ theorem preDedup_perm (st : SearchType) (pq : LS) (thr : F64.F) (dbs : List (Lis
     simp only [List.map_cons, List.flatten_cons, findRows_append]
     exact List.Perm.append (sortDesc_perm _) ih
 
-/-! ### md5 de-duplication -/
+/-! ### de-duplication on `(md5, scaled, num)` -/
 
-/-- what C08 compares: the md5 and the score of a row -/
-def rowKey (x : F64.F × Sig LS) : Nat × F64.F := (x.2.md5, x.1)
+/-- what C08 compares: the md5, the scaled value and the score of a row -/
+def rowKey (x : F64.F × Sig LS) : Nat × Nat × F64.F := (x.2.md5, x.2.mh.scaled, x.1)
 
-theorem mem_dedupMd5 {x : F64.F × Sig LS} : ∀ {l : List (F64.F × Sig LS)} {seen : List Nat},
-    x ∈ dedupMd5 seen l → x ∈ l ∧ x.2.md5 ∉ seen := by
+/-- the de-duplication key of a row's signature -/
+abbrev keyOf (x : F64.F × Sig LS) : Nat × Nat × Nat := sigKey lsOps x.2
+
+theorem keyOf_eq (x : F64.F × Sig LS) : keyOf x = (x.2.md5, x.2.mh.scaled, 0) := rfl
+
+theorem mem_dedupKey {x : F64.F × Sig LS} : ∀ {l : List (F64.F × Sig LS)} {seen : List (Nat × Nat × Nat)},
+    x ∈ dedupKey lsOps seen l → x ∈ l ∧ keyOf x ∉ seen := by
   intro l
   induction l with
-  | nil => intro seen h; simp [dedupMd5] at h
+  | nil => intro seen h; simp [dedupKey] at h
   | cons y ys ih =>
     intro seen h
-    simp only [dedupMd5] at h
+    simp only [dedupKey] at h
     split at h
     · obtain ⟨h1, h2⟩ := ih h
       exact ⟨List.mem_cons_of_mem _ h1, h2⟩
@@ -158,33 +163,33 @@ theorem mem_dedupMd5 {x : F64.F × Sig LS} : ∀ {l : List (F64.F × Sig LS)} {s
       · obtain ⟨h1, h2⟩ := ih h
         exact ⟨List.mem_cons_of_mem _ h1, fun hm => h2 (List.mem_cons_of_mem _ hm)⟩
 
-theorem dedupMd5_nodup : ∀ (l : List (F64.F × Sig LS)) (seen : List Nat),
-    ((dedupMd5 seen l).map (fun x => x.2.md5)).Nodup := by
+theorem dedupKey_nodup : ∀ (l : List (F64.F × Sig LS)) (seen : List (Nat × Nat × Nat)),
+    ((dedupKey lsOps seen l).map keyOf).Nodup := by
   intro l
   induction l with
-  | nil => intro seen; simp [dedupMd5]
+  | nil => intro seen; simp [dedupKey]
   | cons y ys ih =>
     intro seen
-    simp only [dedupMd5]
+    simp only [dedupKey]
     split
     · exact ih seen
     · simp only [List.map_cons, List.nodup_cons]
       refine ⟨?_, ih _⟩
       intro hm
       obtain ⟨z, hz, hzm⟩ := List.mem_map.1 hm
-      have := (mem_dedupMd5 hz).2
+      have := (mem_dedupKey hz).2
       apply this
       rw [hzm]; exact List.mem_cons_self
 
-theorem dedupMd5_complete : ∀ {l : List (F64.F × Sig LS)} {seen : List Nat} {x : F64.F × Sig LS},
-    x ∈ l → x.2.md5 ∉ seen → ∃ y ∈ dedupMd5 seen l, y.2.md5 = x.2.md5 := by
+theorem dedupKey_complete : ∀ {l : List (F64.F × Sig LS)} {seen : List (Nat × Nat × Nat)} {x : F64.F × Sig LS},
+    x ∈ l → keyOf x ∉ seen → ∃ y ∈ dedupKey lsOps seen l, keyOf y = keyOf x := by
   intro l
   induction l with
   | nil => intro seen x h; cases h
   | cons y ys ih =>
     intro seen x hx hns
-    simp only [dedupMd5]
-    by_cases hy : seen.contains y.2.md5 = true
+    simp only [dedupKey]
+    by_cases hy : seen.contains (sigKey lsOps y.2) = true
     · rw [if_pos hy]
       rcases List.mem_cons.1 hx with rfl | hx
       · exact absurd (by simpa using hy) hns
@@ -192,41 +197,43 @@ theorem dedupMd5_complete : ∀ {l : List (F64.F × Sig LS)} {seen : List Nat} {
     · rw [if_neg hy]
       rcases List.mem_cons.1 hx with rfl | hx
       · exact ⟨x, List.mem_cons_self, rfl⟩
-      · by_cases he : x.2.md5 = y.2.md5
+      · by_cases he : keyOf x = keyOf y
         · exact ⟨y, List.mem_cons_self, he.symm⟩
-        · obtain ⟨z, hz, hzm⟩ := ih (seen := y.2.md5 :: seen) hx (by
+        · obtain ⟨z, hz, hzm⟩ := ih (seen := sigKey lsOps y.2 :: seen) hx (by
             intro hm
             rcases List.mem_cons.1 hm with h | h
             · exact he h
             · exact hns h)
           exact ⟨z, List.mem_cons_of_mem _ hz, hzm⟩
 
-/-- rows with the same md5 carry the same score -/
-def KeyByMd5 (l : List (F64.F × Sig LS)) : Prop :=
-  ∀ x ∈ l, ∀ y ∈ l, x.2.md5 = y.2.md5 → x.1 = y.1
+/-- rows with the same de-duplication key carry the same score -/
+def KeyOK (l : List (F64.F × Sig LS)) : Prop :=
+  ∀ x ∈ l, ∀ y ∈ l, keyOf x = keyOf y → x.1 = y.1
 
-theorem mem_dedup_keys {l : List (F64.F × Sig LS)} (hk : KeyByMd5 l) (k : Nat × F64.F) :
-    k ∈ (dedupMd5 [] l).map rowKey ↔ k ∈ l.map rowKey := by
+theorem mem_dedup_keys {l : List (F64.F × Sig LS)} (hk : KeyOK l) (k : Nat × Nat × F64.F) :
+    k ∈ (dedupKey lsOps [] l).map rowKey ↔ k ∈ l.map rowKey := by
   constructor
   · intro h
     obtain ⟨x, hx, rfl⟩ := List.mem_map.1 h
-    exact List.mem_map.2 ⟨x, (mem_dedupMd5 hx).1, rfl⟩
+    exact List.mem_map.2 ⟨x, (mem_dedupKey hx).1, rfl⟩
   · intro h
     obtain ⟨x, hx, rfl⟩ := List.mem_map.1 h
-    obtain ⟨y, hy, hm⟩ := dedupMd5_complete hx (seen := []) (by simp)
+    obtain ⟨y, hy, hm⟩ := dedupKey_complete hx (seen := []) (by simp)
     refine List.mem_map.2 ⟨y, hy, ?_⟩
-    have := hk y (mem_dedupMd5 hy).1 x hx hm
-    simp [rowKey, hm, this]
+    have hs := hk y (mem_dedupKey hy).1 x hx hm
+    rw [keyOf_eq, keyOf_eq] at hm
+    simp only [Prod.mk.injEq, and_true] at hm
+    simp [rowKey, hm.1, hm.2, hs]
 
-theorem dedup_keys_nodup (l : List (F64.F × Sig LS)) : ((dedupMd5 [] l).map rowKey).Nodup := by
-  apply List.Nodup.of_map Prod.fst
+theorem dedup_keys_nodup (l : List (F64.F × Sig LS)) : ((dedupKey lsOps [] l).map rowKey).Nodup := by
+  apply List.Nodup.of_map (fun k : Nat × Nat × F64.F => ((k.1, k.2.1, 0) : Nat × Nat × Nat))
   rw [List.map_map]
-  exact dedupMd5_nodup l []
+  exact dedupKey_nodup l []
 
-/-- de-duplicating two permutations of the same rows gives the same (md5, score) pairs -/
-theorem dedup_keys_perm {l l' : List (F64.F × Sig LS)} (hp : l.Perm l') (hk : KeyByMd5 l) :
-    ((dedupMd5 [] l).map rowKey).Perm ((dedupMd5 [] l').map rowKey) := by
-  have hk' : KeyByMd5 l' := by
+/-- de-duplicating two permutations of the same rows gives the same (md5, scaled, score) triples -/
+theorem dedup_keys_perm {l l' : List (F64.F × Sig LS)} (hp : l.Perm l') (hk : KeyOK l) :
+    ((dedupKey lsOps [] l).map rowKey).Perm ((dedupKey lsOps [] l').map rowKey) := by
+  have hk' : KeyOK l' := by
     intro x hx y hy hm
     exact hk x (hp.mem_iff.2 hx) y (hp.mem_iff.2 hy) hm
   rw [List.perm_ext_iff_of_nodup (dedup_keys_nodup l) (dedup_keys_nodup l')]
@@ -234,25 +241,42 @@ theorem dedup_keys_perm {l l' : List (F64.F × Sig LS)} (hp : l.Perm l') (hk : K
   rw [mem_dedup_keys hk, mem_dedup_keys hk']
   exact (hp.map rowKey).mem_iff
 
+/-- **equal key ⇒ equal score, from the model**: the score `find` computes depends on the database sketch only
+through its scaled value and its hashes; sketches with the same md5 have the same hashes (`MD5OK`: md5 is
+computed from the hashes), so rows with the same `(md5, scaled)` score equally -/
+theorem findScoreS_congr (st : SearchType) (pq : LS) {d d' : LS} (hs : d.scaled = d'.scaled)
+    (hh : d.hs = d'.hs) : findScoreS st pq d = findScoreS st pq d' := by
+  unfold findScoreS
+  rw [hs, hh]
+
+theorem keyOK_findRows (st : SearchType) (pq : LS) (thr : F64.F) {db : List (Sig LS)} (hmd5 : MD5OK db) :
+    KeyOK (findRows st pq thr db) := by
+  intro x hx y hy hm
+  simp only [findRows, List.mem_map, List.mem_filter] at hx hy
+  obtain ⟨d, ⟨hd, _⟩, rfl⟩ := hx
+  obtain ⟨d', ⟨hd', _⟩, rfl⟩ := hy
+  rw [keyOf_eq, keyOf_eq] at hm
+  simp only [Prod.mk.injEq, and_true] at hm
+  exact findScoreS_congr st pq hm.2 (hmd5 d hd d' hd' hm.1)
+
 /-! ### searching several collections -/
 
 /-- `search_databases_with_flat_query` on list sketches: concatenate the per-collection sorted rows,
-de-duplicate by md5, sort -/
+de-duplicate on `(md5, scaled, num)`, sort -/
 theorem searchDatabases_ls (st : SearchType) {pq : LS} (hp : pq.WF) (hflat : pq.ab = none) (thr : F64.F)
     {dbs : List (List (Sig LS))} (hwf : ∀ db ∈ dbs, ∀ d ∈ db, d.mh.WF) :
     searchDatabases lsOps st dbs pq thr false =
-      .ok (sortDesc (dedupMd5 [] ((dbs.map (fun db => sortDesc (findRows st pq thr db))).flatten))) := by
+      .ok (sortDesc (dedupKey lsOps [] ((dbs.map (fun db => sortDesc (findRows st pq thr db))).flatten))) := by
   unfold searchDatabases
   rw [searchEach_ls st hp hflat thr dbs hwf]
 
 /-- **search does not depend on the organisation**: two organisations of the same sketches (any partition
-into collections, any insertion orders) return the same (md5, score) pairs, provided sketches with equal
-md5 score equally -/
+into collections, any insertion orders) return the same (md5, scaled, score) triples.  The only hypothesis
+about md5 values is `MD5OK`: sketches with equal md5 have equal hashes. -/
 theorem search_perm (st : SearchType) {pq : LS} (hp : pq.WF) (hflat : pq.ab = none) (thr : F64.F)
     {dbs dbs' : List (List (Sig LS))} (hwf : ∀ db ∈ dbs, ∀ d ∈ db, d.mh.WF)
     (hwf' : ∀ db ∈ dbs', ∀ d ∈ db, d.mh.WF) (hperm : dbs.flatten.Perm dbs'.flatten)
-    (hkey : ∀ d ∈ dbs.flatten, ∀ d' ∈ dbs.flatten, d.md5 = d'.md5 →
-      findScoreS st pq d.mh = findScoreS st pq d'.mh) :
+    (hmd5 : MD5OK dbs.flatten) :
     ∃ r r', searchDatabases lsOps st dbs pq thr false = .ok r ∧
       searchDatabases lsOps st dbs' pq thr false = .ok r' ∧ (r.map rowKey).Perm (r'.map rowKey) := by
   refine ⟨_, _, searchDatabases_ls st hp hflat thr hwf, searchDatabases_ls st hp hflat thr hwf', ?_⟩
@@ -261,14 +285,9 @@ theorem search_perm (st : SearchType) {pq : LS} (hp : pq.WF) (hflat : pq.ab = no
   have hLL : ((dbs.map (fun db => sortDesc (findRows st pq thr db))).flatten).Perm
       ((dbs'.map (fun db => sortDesc (findRows st pq thr db))).flatten) :=
     hL.trans ((findRows_perm st pq thr hperm).trans hL'.symm)
-  have hk : KeyByMd5 ((dbs.map (fun db => sortDesc (findRows st pq thr db))).flatten) := by
+  have hk : KeyOK ((dbs.map (fun db => sortDesc (findRows st pq thr db))).flatten) := by
     intro x hx y hy hm
-    have hx' := hL.mem_iff.1 hx
-    have hy' := hL.mem_iff.1 hy
-    simp only [findRows, List.mem_map, List.mem_filter] at hx' hy'
-    obtain ⟨d, ⟨hd, _⟩, rfl⟩ := hx'
-    obtain ⟨d', ⟨hd', _⟩, rfl⟩ := hy'
-    exact hkey d hd d' hd' hm
+    exact keyOK_findRows st pq thr hmd5 x (hL.mem_iff.1 hx) y (hL.mem_iff.1 hy) hm
   exact ((sortDesc_perm _).map rowKey).trans ((dedup_keys_perm hLL hk).trans ((sortDesc_perm _).map rowKey).symm)
 
 /-- `Index.prefetch` of a non-empty collection on list sketches -/
